@@ -31,6 +31,8 @@ struct State {
     p_thread: Option<std::thread::ThreadId>,
     /// last point P passed in the current poll
     p_last_point: Option<&'static str>,
+    /// value of P's wake counter when its last poll began (wakes counted after that are not consumed yet)
+    wakes_at_poll_start: u64,
 }
 
 struct Coord { st: Mutex<State>, cv: Condvar }
@@ -177,16 +179,38 @@ fn fine(args: &[String]) {
         let last_enabled = enabled.contains(&last_actor);
         if last_enabled { enabled.retain(|a| *a != last_actor); enabled.insert(0, last_actor); }
         if enabled.is_empty() {
-            if interrupted_seen && !p_returned {
-                // wait for the in-flight sessions: poll `howl` until it returns (bounded by real time; a session that never ends is a failure of the harness' clients)
+            // Settling.  No actor of the schedule is enabled any more.  If the interrupt was handled completely and `howl` has not
+            // returned, it may still be on its way out (awaiting the wait-group, however that is implemented: busy re-waking itself,
+            // or woken by the last session).  The rule is the one of any executor: P is polled again **only when a wake for it has
+            // arrived since its last poll began** (counted on its waker, whoever called it).  A `howl` that is parked in the accept
+            // loop with no wake coming - the lost wake-up - is never polled here, so it is not rescued: after `SETTLE` without a wake
+            // it counts as not returning.  Nothing about the flag is assumed: that P left the accept loop is neither needed nor used.
+            const SETTLE: Duration = Duration::from_millis(1500);
+            if sig_raised && h_done && !p_returned && p_at.is_none() {
                 let t = Instant::now();
+                let mut idle_since = Instant::now();
                 loop {
-                    { let mut g = coord.st.lock().unwrap(); if g.p_returned { break } g.p_polling = true; g.p_start = true; coord.cv.notify_all(); }
-                    if let Err(e) = coord.wait_until("the wait-group poll", |s| !s.p_polling) { fail(e) }
                     if coord.st.lock().unwrap().p_returned { break }
-                    spin_polls += 1;
-                    if t.elapsed() > Duration::from_secs(20) { fail("howl saw the interrupt but did not return within 20 s although every client had closed".into()) }
-                    std::thread::sleep(Duration::from_millis(1));
+                    let polled_at = coord.st.lock().unwrap().wakes_at_poll_start;
+                    if wakes.0.load(Ordering::SeqCst) > polled_at {
+                        { let mut g = coord.st.lock().unwrap(); g.wakes_at_poll_start = wakes.0.load(Ordering::SeqCst); g.p_polling = true; g.p_start = true; coord.cv.notify_all(); }
+                        if let Err(e) = coord.wait_until("the settling poll", |s| !s.p_polling || s.at[0].is_some()) { fail(e) }
+                        // a poll that stops at a hook point is still inside the accept loop: step it through (it was woken, so it runs)
+                        loop {
+                            let at = coord.st.lock().unwrap().at[0];
+                            if at.is_none() { break }
+                            { let mut g = coord.st.lock().unwrap(); g.grant[0] = true; coord.cv.notify_all(); }
+                            if let Err(e) = coord.wait_until("P to leave its point", |s| !s.grant[0]) { fail(e) }
+                            if let Err(e) = coord.wait_until("P to reach a point or finish the poll", |s| s.at[0].is_some() || !s.p_polling) { fail(e) }
+                        }
+                        spin_polls += 1;
+                        idle_since = Instant::now();
+                        if t.elapsed() > Duration::from_secs(20) { fail("howl keeps being woken but did not return within 20 s although the interrupt was handled and every client had closed".into()) }
+                        std::thread::sleep(Duration::from_millis(1));
+                    } else {
+                        if idle_since.elapsed() > SETTLE { break }
+                        std::thread::sleep(Duration::from_millis(2));
+                    }
                 }
             }
             quiescent = true; break
@@ -215,7 +239,7 @@ fn fine(args: &[String]) {
                     if p_at == Some("P0") && conn_pending > 0 && coord.st.lock().unwrap().at[0] == Some("P0") { conn_pending -= 1 }
                 } else {
                     pwake = false;
-                    { let mut g = coord.st.lock().unwrap(); g.p_polling = true; g.p_start = true; coord.cv.notify_all(); }
+                    { let mut g = coord.st.lock().unwrap(); g.wakes_at_poll_start = wakes.0.load(Ordering::SeqCst); g.p_polling = true; g.p_start = true; coord.cv.notify_all(); }
                     if let Err(e) = coord.wait_until("P to reach a point or finish the poll", |s| s.at[0].is_some() || !s.p_polling) { fail(e) }
                 }
             }
@@ -235,10 +259,18 @@ fn fine(args: &[String]) {
             }
             "CONN" => {
                 conns += 1;
-                match std::net::TcpStream::connect(("127.0.0.1", port)) { Ok(c) => clients.push(c), Err(e) => fail(format!("connect failed: {e}")) }
-                // the connection is established (it sits in the accept queue); give the reactor a moment, then the wake counts as delivered
-                std::thread::sleep(Duration::from_millis(20));
-                pwake = true; conn_pending += 1;
+                match std::net::TcpStream::connect(("127.0.0.1", port)) {
+                    Ok(c) => {
+                        clients.push(c);
+                        // the connection is established (it sits in the accept queue); give the reactor a moment, then the wake counts as delivered
+                        std::thread::sleep(Duration::from_millis(20));
+                        pwake = true; conn_pending += 1;
+                    }
+                    // after the interrupt the listener may be gone already (a tree may leave the accept loop without passing PX): the
+                    // client is refused, which is what "stops accepting connections" looks like from outside
+                    Err(e) if sig_raised => { coord.st.lock().unwrap().events.push(format!("CONN:refused-after-interrupt({})", e.kind())); }
+                    Err(e) => fail(format!("connect failed before any interrupt: {e}")),
+                }
                 // the client goes away at once: the session it caused ends by itself
                 clients.clear();
             }
